@@ -740,7 +740,7 @@ class Check(PropertyCheck):
                    "SkyCoord's own frame)",
                    'the model is fed the real converted positions and the real helper results (tables); it is compared at 1e-9 relative on sizes and '
                    '(cos, sin) of angles, exactly on positions, classes, operators, text, meta, visual',
-                   'membership is compared only for positions whose exact relative distance to the boundary of the pixel region is > 1e-6',
+                   'membership is compared only for positions whose exact relative distance to the boundary of the pixel region is > max(1e-6, (3e-13 deg / pixel scale) / smallest dimension): sky coordinates are stored in degrees and carry a few ulp of 360 deg',
                    'geometry after a round trip is compared at 1e-6 relative (the property\'s tolerance); angles as (cos, sin)',
                    'RegularPolygonPixelRegion has no sky class: it converts as the polygon of its vertices (PolygonSkyRegion -> PolygonPixelRegion)']
     validated_only = ['that a real astropy WCS is invertible to within the tolerance and that the helper returns the same (scale, angle) at the '
@@ -823,9 +823,10 @@ class Check(PropertyCheck):
                 if model_matches(real[rk], parse_model(model[mk])):
                     return False
             d = G_desc(case['region'])
+            band = band_for(case, d)
             for p, rp, rs, mp_, ms in zip(case['pts'], real['contains_pix'], real['contains_sky'], model['contains_pix'], model['contains_sky']):
                 _, mg = G.spec_contains(d, F(p[0]), F(p[1]))
-                if mg < BAND:
+                if mg < band:
                     continue
                 if rp != mp_ or rs != ms:
                     return False
@@ -833,9 +834,10 @@ class Check(PropertyCheck):
         for rk, mk in (('start', 'start'), ('pix', 'pix'), ('back', 'back')):
             if model_matches(real[rk], parse_model(model[mk])):
                 return False
+        band = band_for(case, real['pix_desc'])
         for p, rs, rp, ms, mp_ in zip(real['pix_pts'], real['contains_sky'], real['contains_pix'], model['contains_sky'], model['contains_pix']):
             _, mg = G.spec_contains(real['pix_desc'], F(p[0]), F(p[1]))
-            if mg < BAND:
+            if mg < band:
                 continue
             if rs != ms or rp != mp_:
                 return False
@@ -869,9 +871,10 @@ class Check(PropertyCheck):
         if case['kind'] == 'pix':
             d = G_desc(case['region'])
             d_lost = G_desc(case['region'], drop_compound_include=True)
+            band = band_for(case, d)
             for p, a, b in zip(case['pts'], real['contains_pix'], real['contains_sky']):
                 exp, mg = G.spec_contains(d, F(p[0]), F(p[1]))
-                if mg < BAND:
+                if mg < band:
                     continue
                 if a != b:
                     exp_lost, _ = G.spec_contains(d_lost, F(p[0]), F(p[1]))
@@ -882,9 +885,10 @@ class Check(PropertyCheck):
                         bad('membership_not_invariant', f'position {p}: pixel region says {a}, its sky image says {b}; margin {float(mg):.3g}')
                     break
         else:
+            band = band_for(case, real['pix_desc'])
             for p, a, b in zip(real['pix_pts'], real['contains_sky'], real['contains_pix']):
                 _, mg = G.spec_contains(real['pix_desc'], F(p[0]), F(p[1]))
-                if mg < BAND:
+                if mg < band:
                     continue
                 if a != b:
                     bad('sky_contains_differs_from_pixel_image', f'pixel position {p}: SkyRegion.contains {a}, pixel image {b}; margin {float(mg):.3g}')
@@ -986,6 +990,26 @@ class Check(PropertyCheck):
         if isinstance(real, dict) and not real.get('finite', True):
             return f"{case['kind']}/outside-wcs-domain"
         return f"{case['kind']}/{case['region']['kind']}/{case['wcs']['proj']}"
+
+
+def min_dim(d):
+    """smallest length (pixels) of a regiongen-style pixel description: the scale on which a position error matters."""
+    if d['kind'] == 'compound':
+        return min(min_dim(d['a']), min_dim(d['b']))
+    vals = [float(d[k]) for k in ('r', 'w', 'h', 'r1', 'w1', 'h1') if k in d]
+    if d['kind'] in ('circle_annulus',):
+        vals.append(float(d['r2']) - float(d['r1']))
+    if d['kind'] in ('ellipse_annulus', 'rectangle_annulus'):
+        vals += [float(d['w2']) - float(d['w1']), float(d['h2']) - float(d['h1'])]
+    return min(vals) if vals else G.approx_size(d)
+
+
+def band_for(case, d):
+    """membership is compared only beyond this relative distance from the boundary: 1e-6, or more when the region is so
+    small that the rounding of sky coordinates stored in degrees (a few ulp of 360 deg = 3e-13 deg, i.e. 3e-13/scale
+    pixels) is a larger fraction of its smallest dimension."""
+    err_px = 3e-13 / case['wcs']['scale']
+    return max(BAND, Fraction(err_px / max(min_dim(d), 1e-300)))
 
 
 def G_desc(d, drop_compound_include=False):
